@@ -1,5 +1,5 @@
 // auto-generated: "lalrpop 0.23.1"
-// sha3: e815a0a2e621a60407192f876a551f117fb322b438e735520414d59eafd324a5
+// sha3: 00f61bd9d3700f0a1eec30bfe4602ba4f3fc896e709a1ef0a39316e49227aefc
 use crate::rt::*;
 #[allow(unused_extern_crates)]
 extern crate lalrpop_util as __lalrpop_util;
@@ -29,156 +29,54 @@ mod __parse__S {
     }
     const __ACTION: &[i8] = &[
         // State 0
-        3, 4, 5, 0, 0,
+        3, -3,
         // State 1
-        0, 0, 0, 0, 6,
+        0, 6,
         // State 2
-        0, 0, 0, 7, 0,
+        3, -3,
         // State 3
-        0, 0, 0, 8, 0,
+        0, 0,
         // State 4
-        0, 0, 0, 9, 0,
+        0, 0,
         // State 5
-        10, 11, 12, 0, 0,
+        0, 0,
         // State 6
-        13, 14, 15, 0, 0,
-        // State 7
-        16, 17, 18, 0, 0,
-        // State 8
-        19, 20, 21, 0, 0,
-        // State 9
-        0, 0, 0, 22, 0,
-        // State 10
-        0, 0, 0, 23, 0,
-        // State 11
-        0, 0, 0, 24, 0,
-        // State 12
-        0, 0, 0, 0, -6,
-        // State 13
-        0, 0, 0, 0, -7,
-        // State 14
-        0, 0, 0, 0, -8,
-        // State 15
-        0, 0, 0, 0, -9,
-        // State 16
-        0, 0, 0, 0, -10,
-        // State 17
-        0, 0, 0, 0, -11,
-        // State 18
-        0, 0, 0, 0, -12,
-        // State 19
-        0, 0, 0, 0, -13,
-        // State 20
-        0, 0, 0, 0, -14,
-        // State 21
-        25, 26, 27, 0, 0,
-        // State 22
-        28, 29, 30, 0, 0,
-        // State 23
-        31, 32, 33, 0, 0,
-        // State 24
-        0, 0, 0, 0, -15,
-        // State 25
-        0, 0, 0, 0, -16,
-        // State 26
-        0, 0, 0, 0, -17,
-        // State 27
-        0, 0, 0, 0, -18,
-        // State 28
-        0, 0, 0, 0, -19,
-        // State 29
-        0, 0, 0, 0, -20,
-        // State 30
-        0, 0, 0, 0, -21,
-        // State 31
-        0, 0, 0, 0, -22,
-        // State 32
-        0, 0, 0, 0, -23,
+        0, -4,
     ];
     fn __action(state: i8, integer: usize) -> i8 {
-        __ACTION[(state as usize) * 5 + integer]
+        __ACTION[(state as usize) * 2 + integer]
     }
     const __EOF_ACTION: &[i8] = &[
         // State 0
-        0,
+        -3,
         // State 1
-        -24,
+        -5,
         // State 2
-        0,
+        -3,
         // State 3
-        0,
-        // State 4
-        0,
-        // State 5
-        0,
-        // State 6
-        0,
-        // State 7
-        0,
-        // State 8
-        0,
-        // State 9
-        0,
-        // State 10
-        0,
-        // State 11
-        0,
-        // State 12
-        -6,
-        // State 13
-        -7,
-        // State 14
         -8,
-        // State 15
-        -9,
-        // State 16
-        -10,
-        // State 17
-        -11,
-        // State 18
-        -12,
-        // State 19
-        -13,
-        // State 20
-        -14,
-        // State 21
-        0,
-        // State 22
-        0,
-        // State 23
-        0,
-        // State 24
-        -15,
-        // State 25
-        -16,
-        // State 26
-        -17,
-        // State 27
-        -18,
-        // State 28
-        -19,
-        // State 29
-        -20,
-        // State 30
-        -21,
-        // State 31
-        -22,
-        // State 32
-        -23,
+        // State 4
+        -7,
+        // State 5
+        -6,
+        // State 6
+        -4,
     ];
     fn __goto(state: i8, nt: usize) -> i8 {
         match nt {
-            3 => 1,
+            2 => match state {
+                2 => 6,
+                _ => 1,
+            },
+            3 => 4,
+            4 => 3,
             _ => 0,
         }
     }
     #[allow(clippy::needless_raw_string_hashes)]
     const __TERMINAL: &[&str] = &[
-        r###""n""###,
-        r###""one""###,
-        r###""two""###,
-        r###"",""###,
-        r###"";""###,
+        r###""a""###,
+        r###""b""###,
     ];
     fn __expected_tokens(__state: i8) -> alloc::vec::Vec<alloc::string::String> {
         __TERMINAL.iter().enumerate().filter_map(|(index, terminal)| {
@@ -245,7 +143,7 @@ mod __parse__S {
 
         #[inline]
         fn error_action(&self, state: i8) -> i8 {
-            __action(state, 5 - 1)
+            __action(state, 2 - 1)
         }
 
         #[inline]
@@ -313,9 +211,6 @@ mod __parse__S {
         match __token {
             Tok('a', _, _, _) if true => Some(0),
             Tok('b', _, _, _) if true => Some(1),
-            Tok('c', _, _, _) if true => Some(2),
-            Tok('d', _, _, _) if true => Some(3),
-            Tok('e', _, _, _) if true => Some(4),
             _ => None,
         }
     }
@@ -327,7 +222,7 @@ mod __parse__S {
     ) -> __Symbol<>
     {
         #[allow(clippy::manual_range_patterns)]match __token_index {
-            0 | 1 | 2 | 3 | 4 => __Symbol::Variant0(__token),
+            0 | 1 => __Symbol::Variant0(__token),
             _ => unreachable!(),
         }
     }
@@ -352,131 +247,35 @@ mod __parse__S {
             }
             2 => {
                 __state_machine::SimulatedReduce::Reduce {
-                    states_to_pop: 1,
+                    states_to_pop: 0,
                     nonterminal_produced: 2,
                 }
             }
             3 => {
                 __state_machine::SimulatedReduce::Reduce {
-                    states_to_pop: 1,
+                    states_to_pop: 2,
                     nonterminal_produced: 2,
                 }
             }
             4 => {
                 __state_machine::SimulatedReduce::Reduce {
-                    states_to_pop: 1,
-                    nonterminal_produced: 2,
+                    states_to_pop: 0,
+                    nonterminal_produced: 3,
                 }
             }
             5 => {
                 __state_machine::SimulatedReduce::Reduce {
-                    states_to_pop: 3,
+                    states_to_pop: 1,
                     nonterminal_produced: 3,
                 }
             }
             6 => {
                 __state_machine::SimulatedReduce::Reduce {
-                    states_to_pop: 3,
-                    nonterminal_produced: 3,
+                    states_to_pop: 2,
+                    nonterminal_produced: 4,
                 }
             }
-            7 => {
-                __state_machine::SimulatedReduce::Reduce {
-                    states_to_pop: 3,
-                    nonterminal_produced: 3,
-                }
-            }
-            8 => {
-                __state_machine::SimulatedReduce::Reduce {
-                    states_to_pop: 3,
-                    nonterminal_produced: 3,
-                }
-            }
-            9 => {
-                __state_machine::SimulatedReduce::Reduce {
-                    states_to_pop: 3,
-                    nonterminal_produced: 3,
-                }
-            }
-            10 => {
-                __state_machine::SimulatedReduce::Reduce {
-                    states_to_pop: 3,
-                    nonterminal_produced: 3,
-                }
-            }
-            11 => {
-                __state_machine::SimulatedReduce::Reduce {
-                    states_to_pop: 3,
-                    nonterminal_produced: 3,
-                }
-            }
-            12 => {
-                __state_machine::SimulatedReduce::Reduce {
-                    states_to_pop: 3,
-                    nonterminal_produced: 3,
-                }
-            }
-            13 => {
-                __state_machine::SimulatedReduce::Reduce {
-                    states_to_pop: 3,
-                    nonterminal_produced: 3,
-                }
-            }
-            14 => {
-                __state_machine::SimulatedReduce::Reduce {
-                    states_to_pop: 5,
-                    nonterminal_produced: 3,
-                }
-            }
-            15 => {
-                __state_machine::SimulatedReduce::Reduce {
-                    states_to_pop: 5,
-                    nonterminal_produced: 3,
-                }
-            }
-            16 => {
-                __state_machine::SimulatedReduce::Reduce {
-                    states_to_pop: 5,
-                    nonterminal_produced: 3,
-                }
-            }
-            17 => {
-                __state_machine::SimulatedReduce::Reduce {
-                    states_to_pop: 5,
-                    nonterminal_produced: 3,
-                }
-            }
-            18 => {
-                __state_machine::SimulatedReduce::Reduce {
-                    states_to_pop: 5,
-                    nonterminal_produced: 3,
-                }
-            }
-            19 => {
-                __state_machine::SimulatedReduce::Reduce {
-                    states_to_pop: 5,
-                    nonterminal_produced: 3,
-                }
-            }
-            20 => {
-                __state_machine::SimulatedReduce::Reduce {
-                    states_to_pop: 5,
-                    nonterminal_produced: 3,
-                }
-            }
-            21 => {
-                __state_machine::SimulatedReduce::Reduce {
-                    states_to_pop: 5,
-                    nonterminal_produced: 3,
-                }
-            }
-            22 => {
-                __state_machine::SimulatedReduce::Reduce {
-                    states_to_pop: 5,
-                    nonterminal_produced: 3,
-                }
-            }
-            23 => __state_machine::SimulatedReduce::Accept,
+            7 => __state_machine::SimulatedReduce::Accept,
             _ => panic!("invalid reduction index {__reduce_index}")
         }
     }
@@ -560,182 +359,48 @@ mod __parse__S {
                 __reduce1(__lookahead_start, __symbols, core::marker::PhantomData::<()>)
             }
             2 => {
-                // I = "n" => ActionFn(13);
-                let __sym0 = __pop_Variant0(__symbols);
-                let __start = __sym0.0.clone();
-                let __end = __sym0.2.clone();
-                let __nt = match super::__action13::<>(__sym0) {
+                // A =  => ActionFn(13);
+                let __start = __lookahead_start.cloned().or_else(|| __symbols.last().map(|s| s.2.clone())).unwrap_or_default();
+                let __end = __start.clone();
+                let __nt = match super::__action13::<>(&__start, &__end) {
                     Ok(v) => v,
                     Err(e) => return Some(Err(e)),
                 };
                 __symbols.push((__start, __Symbol::Variant2(__nt), __end));
-                (1, 2)
+                (0, 2)
             }
             3 => {
-                __reduce3(__lookahead_start, __symbols, core::marker::PhantomData::<()>)
+                // A = "a", A => ActionFn(14);
+                assert!(__symbols.len() >= 2);
+                let __sym1 = __pop_Variant2(__symbols);
+                let __sym0 = __pop_Variant0(__symbols);
+                let __start = __sym0.0.clone();
+                let __end = __sym1.2.clone();
+                let __nt = match super::__action14::<>(__sym0, __sym1) {
+                    Ok(v) => v,
+                    Err(e) => return Some(Err(e)),
+                };
+                __symbols.push((__start, __Symbol::Variant2(__nt), __end));
+                (2, 2)
             }
             4 => {
-                __reduce4(__lookahead_start, __symbols, core::marker::PhantomData::<()>)
+                // B =  => ActionFn(15);
+                let __start = __lookahead_start.cloned().or_else(|| __symbols.last().map(|s| s.2.clone())).unwrap_or_default();
+                let __end = __start.clone();
+                let __nt = match super::__action15::<>(&__start, &__end) {
+                    Ok(v) => v,
+                    Err(e) => return Some(Err(e)),
+                };
+                __symbols.push((__start, __Symbol::Variant2(__nt), __end));
+                (0, 3)
             }
             5 => {
-                // S = "n", ",", "n" => ActionFn(18);
-                assert!(__symbols.len() >= 3);
-                let __sym2 = __pop_Variant0(__symbols);
-                let __sym1 = __pop_Variant0(__symbols);
-                let __sym0 = __pop_Variant0(__symbols);
-                let __start = __sym0.0.clone();
-                let __end = __sym2.2.clone();
-                let __nt = match super::__action18::<>(__sym0, __sym1, __sym2) {
-                    Ok(v) => v,
-                    Err(e) => return Some(Err(e)),
-                };
-                __symbols.push((__start, __Symbol::Variant2(__nt), __end));
-                (3, 3)
+                __reduce5(__lookahead_start, __symbols, core::marker::PhantomData::<()>)
             }
             6 => {
-                // S = "n", ",", "one" => ActionFn(19);
-                assert!(__symbols.len() >= 3);
-                let __sym2 = __pop_Variant0(__symbols);
-                let __sym1 = __pop_Variant0(__symbols);
-                let __sym0 = __pop_Variant0(__symbols);
-                let __start = __sym0.0.clone();
-                let __end = __sym2.2.clone();
-                let __nt = match super::__action19::<>(__sym0, __sym1, __sym2) {
-                    Ok(v) => v,
-                    Err(e) => return Some(Err(e)),
-                };
-                __symbols.push((__start, __Symbol::Variant2(__nt), __end));
-                (3, 3)
+                __reduce6(__lookahead_start, __symbols, core::marker::PhantomData::<()>)
             }
             7 => {
-                __reduce7(__lookahead_start, __symbols, core::marker::PhantomData::<()>)
-            }
-            8 => {
-                // S = "one", ",", "n" => ActionFn(21);
-                assert!(__symbols.len() >= 3);
-                let __sym2 = __pop_Variant0(__symbols);
-                let __sym1 = __pop_Variant0(__symbols);
-                let __sym0 = __pop_Variant0(__symbols);
-                let __start = __sym0.0.clone();
-                let __end = __sym2.2.clone();
-                let __nt = match super::__action21::<>(__sym0, __sym1, __sym2) {
-                    Ok(v) => v,
-                    Err(e) => return Some(Err(e)),
-                };
-                __symbols.push((__start, __Symbol::Variant2(__nt), __end));
-                (3, 3)
-            }
-            9 => {
-                __reduce9(__lookahead_start, __symbols, core::marker::PhantomData::<()>)
-            }
-            10 => {
-                __reduce10(__lookahead_start, __symbols, core::marker::PhantomData::<()>)
-            }
-            11 => {
-                // S = "two", ",", "n" => ActionFn(24);
-                assert!(__symbols.len() >= 3);
-                let __sym2 = __pop_Variant0(__symbols);
-                let __sym1 = __pop_Variant0(__symbols);
-                let __sym0 = __pop_Variant0(__symbols);
-                let __start = __sym0.0.clone();
-                let __end = __sym2.2.clone();
-                let __nt = match super::__action24::<>(__sym0, __sym1, __sym2) {
-                    Ok(v) => v,
-                    Err(e) => return Some(Err(e)),
-                };
-                __symbols.push((__start, __Symbol::Variant2(__nt), __end));
-                (3, 3)
-            }
-            12 => {
-                __reduce12(__lookahead_start, __symbols, core::marker::PhantomData::<()>)
-            }
-            13 => {
-                __reduce13(__lookahead_start, __symbols, core::marker::PhantomData::<()>)
-            }
-            14 => {
-                // S = S, ";", "n", ",", "n" => ActionFn(27);
-                assert!(__symbols.len() >= 5);
-                let __sym4 = __pop_Variant0(__symbols);
-                let __sym3 = __pop_Variant0(__symbols);
-                let __sym2 = __pop_Variant0(__symbols);
-                let __sym1 = __pop_Variant0(__symbols);
-                let __sym0 = __pop_Variant2(__symbols);
-                let __start = __sym0.0.clone();
-                let __end = __sym4.2.clone();
-                let __nt = match super::__action27::<>(__sym0, __sym1, __sym2, __sym3, __sym4) {
-                    Ok(v) => v,
-                    Err(e) => return Some(Err(e)),
-                };
-                __symbols.push((__start, __Symbol::Variant2(__nt), __end));
-                (5, 3)
-            }
-            15 => {
-                // S = S, ";", "n", ",", "one" => ActionFn(28);
-                assert!(__symbols.len() >= 5);
-                let __sym4 = __pop_Variant0(__symbols);
-                let __sym3 = __pop_Variant0(__symbols);
-                let __sym2 = __pop_Variant0(__symbols);
-                let __sym1 = __pop_Variant0(__symbols);
-                let __sym0 = __pop_Variant2(__symbols);
-                let __start = __sym0.0.clone();
-                let __end = __sym4.2.clone();
-                let __nt = match super::__action28::<>(__sym0, __sym1, __sym2, __sym3, __sym4) {
-                    Ok(v) => v,
-                    Err(e) => return Some(Err(e)),
-                };
-                __symbols.push((__start, __Symbol::Variant2(__nt), __end));
-                (5, 3)
-            }
-            16 => {
-                __reduce16(__lookahead_start, __symbols, core::marker::PhantomData::<()>)
-            }
-            17 => {
-                // S = S, ";", "one", ",", "n" => ActionFn(30);
-                assert!(__symbols.len() >= 5);
-                let __sym4 = __pop_Variant0(__symbols);
-                let __sym3 = __pop_Variant0(__symbols);
-                let __sym2 = __pop_Variant0(__symbols);
-                let __sym1 = __pop_Variant0(__symbols);
-                let __sym0 = __pop_Variant2(__symbols);
-                let __start = __sym0.0.clone();
-                let __end = __sym4.2.clone();
-                let __nt = match super::__action30::<>(__sym0, __sym1, __sym2, __sym3, __sym4) {
-                    Ok(v) => v,
-                    Err(e) => return Some(Err(e)),
-                };
-                __symbols.push((__start, __Symbol::Variant2(__nt), __end));
-                (5, 3)
-            }
-            18 => {
-                __reduce18(__lookahead_start, __symbols, core::marker::PhantomData::<()>)
-            }
-            19 => {
-                __reduce19(__lookahead_start, __symbols, core::marker::PhantomData::<()>)
-            }
-            20 => {
-                // S = S, ";", "two", ",", "n" => ActionFn(33);
-                assert!(__symbols.len() >= 5);
-                let __sym4 = __pop_Variant0(__symbols);
-                let __sym3 = __pop_Variant0(__symbols);
-                let __sym2 = __pop_Variant0(__symbols);
-                let __sym1 = __pop_Variant0(__symbols);
-                let __sym0 = __pop_Variant2(__symbols);
-                let __start = __sym0.0.clone();
-                let __end = __sym4.2.clone();
-                let __nt = match super::__action33::<>(__sym0, __sym1, __sym2, __sym3, __sym4) {
-                    Ok(v) => v,
-                    Err(e) => return Some(Err(e)),
-                };
-                __symbols.push((__start, __Symbol::Variant2(__nt), __end));
-                (5, 3)
-            }
-            21 => {
-                __reduce21(__lookahead_start, __symbols, core::marker::PhantomData::<()>)
-            }
-            22 => {
-                __reduce22(__lookahead_start, __symbols, core::marker::PhantomData::<()>)
-            }
-            23 => {
                 // __S = S => ActionFn(0);
                 let __sym0 = __pop_Variant2(__symbols);
                 let __start = __sym0.0.clone();
@@ -814,225 +479,37 @@ mod __parse__S {
         __symbols.push((__start, __Symbol::Variant1(__nt), __end));
         (0, 1)
     }
-    fn __reduce3<
+    fn __reduce5<
     >(
         __lookahead_start: Option<&i64>,
         __symbols: &mut alloc::vec::Vec<(i64,__Symbol<>,i64)>,
         _: core::marker::PhantomData<()>,
     ) -> (usize, usize)
     {
-        // I = "one" => ActionFn(14);
+        // B = "b" => ActionFn(16);
         let __sym0 = __pop_Variant0(__symbols);
         let __start = __sym0.0.clone();
         let __end = __sym0.2.clone();
-        let __nt = super::__action14::<>(__sym0);
+        let __nt = super::__action16::<>(__sym0);
         __symbols.push((__start, __Symbol::Variant2(__nt), __end));
-        (1, 2)
+        (1, 3)
     }
-    fn __reduce4<
+    fn __reduce6<
     >(
         __lookahead_start: Option<&i64>,
         __symbols: &mut alloc::vec::Vec<(i64,__Symbol<>,i64)>,
         _: core::marker::PhantomData<()>,
     ) -> (usize, usize)
     {
-        // I = "two" => ActionFn(15);
-        let __sym0 = __pop_Variant0(__symbols);
-        let __start = __sym0.0.clone();
-        let __end = __sym0.2.clone();
-        let __nt = super::__action15::<>(__sym0);
-        __symbols.push((__start, __Symbol::Variant2(__nt), __end));
-        (1, 2)
-    }
-    fn __reduce7<
-    >(
-        __lookahead_start: Option<&i64>,
-        __symbols: &mut alloc::vec::Vec<(i64,__Symbol<>,i64)>,
-        _: core::marker::PhantomData<()>,
-    ) -> (usize, usize)
-    {
-        // S = "n", ",", "two" => ActionFn(20);
-        assert!(__symbols.len() >= 3);
-        let __sym2 = __pop_Variant0(__symbols);
-        let __sym1 = __pop_Variant0(__symbols);
-        let __sym0 = __pop_Variant0(__symbols);
-        let __start = __sym0.0.clone();
-        let __end = __sym2.2.clone();
-        let __nt = super::__action20::<>(__sym0, __sym1, __sym2);
-        __symbols.push((__start, __Symbol::Variant2(__nt), __end));
-        (3, 3)
-    }
-    fn __reduce9<
-    >(
-        __lookahead_start: Option<&i64>,
-        __symbols: &mut alloc::vec::Vec<(i64,__Symbol<>,i64)>,
-        _: core::marker::PhantomData<()>,
-    ) -> (usize, usize)
-    {
-        // S = "one", ",", "one" => ActionFn(22);
-        assert!(__symbols.len() >= 3);
-        let __sym2 = __pop_Variant0(__symbols);
-        let __sym1 = __pop_Variant0(__symbols);
-        let __sym0 = __pop_Variant0(__symbols);
-        let __start = __sym0.0.clone();
-        let __end = __sym2.2.clone();
-        let __nt = super::__action22::<>(__sym0, __sym1, __sym2);
-        __symbols.push((__start, __Symbol::Variant2(__nt), __end));
-        (3, 3)
-    }
-    fn __reduce10<
-    >(
-        __lookahead_start: Option<&i64>,
-        __symbols: &mut alloc::vec::Vec<(i64,__Symbol<>,i64)>,
-        _: core::marker::PhantomData<()>,
-    ) -> (usize, usize)
-    {
-        // S = "one", ",", "two" => ActionFn(23);
-        assert!(__symbols.len() >= 3);
-        let __sym2 = __pop_Variant0(__symbols);
-        let __sym1 = __pop_Variant0(__symbols);
-        let __sym0 = __pop_Variant0(__symbols);
-        let __start = __sym0.0.clone();
-        let __end = __sym2.2.clone();
-        let __nt = super::__action23::<>(__sym0, __sym1, __sym2);
-        __symbols.push((__start, __Symbol::Variant2(__nt), __end));
-        (3, 3)
-    }
-    fn __reduce12<
-    >(
-        __lookahead_start: Option<&i64>,
-        __symbols: &mut alloc::vec::Vec<(i64,__Symbol<>,i64)>,
-        _: core::marker::PhantomData<()>,
-    ) -> (usize, usize)
-    {
-        // S = "two", ",", "one" => ActionFn(25);
-        assert!(__symbols.len() >= 3);
-        let __sym2 = __pop_Variant0(__symbols);
-        let __sym1 = __pop_Variant0(__symbols);
-        let __sym0 = __pop_Variant0(__symbols);
-        let __start = __sym0.0.clone();
-        let __end = __sym2.2.clone();
-        let __nt = super::__action25::<>(__sym0, __sym1, __sym2);
-        __symbols.push((__start, __Symbol::Variant2(__nt), __end));
-        (3, 3)
-    }
-    fn __reduce13<
-    >(
-        __lookahead_start: Option<&i64>,
-        __symbols: &mut alloc::vec::Vec<(i64,__Symbol<>,i64)>,
-        _: core::marker::PhantomData<()>,
-    ) -> (usize, usize)
-    {
-        // S = "two", ",", "two" => ActionFn(26);
-        assert!(__symbols.len() >= 3);
-        let __sym2 = __pop_Variant0(__symbols);
-        let __sym1 = __pop_Variant0(__symbols);
-        let __sym0 = __pop_Variant0(__symbols);
-        let __start = __sym0.0.clone();
-        let __end = __sym2.2.clone();
-        let __nt = super::__action26::<>(__sym0, __sym1, __sym2);
-        __symbols.push((__start, __Symbol::Variant2(__nt), __end));
-        (3, 3)
-    }
-    fn __reduce16<
-    >(
-        __lookahead_start: Option<&i64>,
-        __symbols: &mut alloc::vec::Vec<(i64,__Symbol<>,i64)>,
-        _: core::marker::PhantomData<()>,
-    ) -> (usize, usize)
-    {
-        // S = S, ";", "n", ",", "two" => ActionFn(29);
-        assert!(__symbols.len() >= 5);
-        let __sym4 = __pop_Variant0(__symbols);
-        let __sym3 = __pop_Variant0(__symbols);
-        let __sym2 = __pop_Variant0(__symbols);
-        let __sym1 = __pop_Variant0(__symbols);
+        // S = A, B => ActionFn(17);
+        assert!(__symbols.len() >= 2);
+        let __sym1 = __pop_Variant2(__symbols);
         let __sym0 = __pop_Variant2(__symbols);
         let __start = __sym0.0.clone();
-        let __end = __sym4.2.clone();
-        let __nt = super::__action29::<>(__sym0, __sym1, __sym2, __sym3, __sym4);
+        let __end = __sym1.2.clone();
+        let __nt = super::__action17::<>(__sym0, __sym1);
         __symbols.push((__start, __Symbol::Variant2(__nt), __end));
-        (5, 3)
-    }
-    fn __reduce18<
-    >(
-        __lookahead_start: Option<&i64>,
-        __symbols: &mut alloc::vec::Vec<(i64,__Symbol<>,i64)>,
-        _: core::marker::PhantomData<()>,
-    ) -> (usize, usize)
-    {
-        // S = S, ";", "one", ",", "one" => ActionFn(31);
-        assert!(__symbols.len() >= 5);
-        let __sym4 = __pop_Variant0(__symbols);
-        let __sym3 = __pop_Variant0(__symbols);
-        let __sym2 = __pop_Variant0(__symbols);
-        let __sym1 = __pop_Variant0(__symbols);
-        let __sym0 = __pop_Variant2(__symbols);
-        let __start = __sym0.0.clone();
-        let __end = __sym4.2.clone();
-        let __nt = super::__action31::<>(__sym0, __sym1, __sym2, __sym3, __sym4);
-        __symbols.push((__start, __Symbol::Variant2(__nt), __end));
-        (5, 3)
-    }
-    fn __reduce19<
-    >(
-        __lookahead_start: Option<&i64>,
-        __symbols: &mut alloc::vec::Vec<(i64,__Symbol<>,i64)>,
-        _: core::marker::PhantomData<()>,
-    ) -> (usize, usize)
-    {
-        // S = S, ";", "one", ",", "two" => ActionFn(32);
-        assert!(__symbols.len() >= 5);
-        let __sym4 = __pop_Variant0(__symbols);
-        let __sym3 = __pop_Variant0(__symbols);
-        let __sym2 = __pop_Variant0(__symbols);
-        let __sym1 = __pop_Variant0(__symbols);
-        let __sym0 = __pop_Variant2(__symbols);
-        let __start = __sym0.0.clone();
-        let __end = __sym4.2.clone();
-        let __nt = super::__action32::<>(__sym0, __sym1, __sym2, __sym3, __sym4);
-        __symbols.push((__start, __Symbol::Variant2(__nt), __end));
-        (5, 3)
-    }
-    fn __reduce21<
-    >(
-        __lookahead_start: Option<&i64>,
-        __symbols: &mut alloc::vec::Vec<(i64,__Symbol<>,i64)>,
-        _: core::marker::PhantomData<()>,
-    ) -> (usize, usize)
-    {
-        // S = S, ";", "two", ",", "one" => ActionFn(34);
-        assert!(__symbols.len() >= 5);
-        let __sym4 = __pop_Variant0(__symbols);
-        let __sym3 = __pop_Variant0(__symbols);
-        let __sym2 = __pop_Variant0(__symbols);
-        let __sym1 = __pop_Variant0(__symbols);
-        let __sym0 = __pop_Variant2(__symbols);
-        let __start = __sym0.0.clone();
-        let __end = __sym4.2.clone();
-        let __nt = super::__action34::<>(__sym0, __sym1, __sym2, __sym3, __sym4);
-        __symbols.push((__start, __Symbol::Variant2(__nt), __end));
-        (5, 3)
-    }
-    fn __reduce22<
-    >(
-        __lookahead_start: Option<&i64>,
-        __symbols: &mut alloc::vec::Vec<(i64,__Symbol<>,i64)>,
-        _: core::marker::PhantomData<()>,
-    ) -> (usize, usize)
-    {
-        // S = S, ";", "two", ",", "two" => ActionFn(35);
-        assert!(__symbols.len() >= 5);
-        let __sym4 = __pop_Variant0(__symbols);
-        let __sym3 = __pop_Variant0(__symbols);
-        let __sym2 = __pop_Variant0(__symbols);
-        let __sym1 = __pop_Variant0(__symbols);
-        let __sym0 = __pop_Variant2(__symbols);
-        let __start = __sym0.0.clone();
-        let __end = __sym4.2.clone();
-        let __nt = super::__action35::<>(__sym0, __sym1, __sym2, __sym3, __sym4);
-        __symbols.push((__start, __Symbol::Variant2(__nt), __end));
-        (5, 3)
+        (2, 4)
     }
 }
 #[allow(unused_imports)]
@@ -1052,27 +529,22 @@ fn __action1<
 >(
     (_, l, _): (i64, i64, i64),
     (_, c0, _): (i64, Tree, i64),
-    (_, c1, _): (i64, Tok, i64),
-    (_, c2, _): (i64, Tree, i64),
+    (_, c1, _): (i64, Tree, i64),
+    (_, pL2, _): (i64, i64, i64),
     (_, r, _): (i64, i64, i64),
 ) -> Tree
 {
-    node("S#0", l, r, vec![Tree::from(c0), Tree::from(c1), Tree::from(c2)])
+    { probe("S#0", 2, 'L', pL2); node("S#0", l, r, vec![Tree::from(c0), Tree::from(c1)]) }
 }
 
 #[allow(clippy::too_many_arguments, clippy::needless_lifetimes, clippy::just_underscores_and_digits, clippy::extra_unused_type_parameters)]
 fn __action2<
 >(
     (_, l, _): (i64, i64, i64),
-    (_, c0, _): (i64, Tree, i64),
-    (_, c1, _): (i64, Tok, i64),
-    (_, c2, _): (i64, Tree, i64),
-    (_, c3, _): (i64, Tok, i64),
-    (_, c4, _): (i64, Tree, i64),
     (_, r, _): (i64, i64, i64),
-) -> Tree
+) -> Result<Tree,__lalrpop_util::ParseError<i64,Tok,u64>>
 {
-    node("S#1", l, r, vec![Tree::from(c0), Tree::from(c1), Tree::from(c2), Tree::from(c3), Tree::from(c4)])
+    fallible("A#0", l, r, vec![])
 }
 
 #[allow(clippy::too_many_arguments, clippy::needless_lifetimes, clippy::just_underscores_and_digits, clippy::extra_unused_type_parameters)]
@@ -1080,21 +552,23 @@ fn __action3<
 >(
     (_, l, _): (i64, i64, i64),
     (_, c0, _): (i64, Tok, i64),
+    (_, pR1, _): (i64, i64, i64),
+    (_, c1, _): (i64, Tree, i64),
+    (_, pR2, _): (i64, i64, i64),
     (_, r, _): (i64, i64, i64),
 ) -> Result<Tree,__lalrpop_util::ParseError<i64,Tok,u64>>
 {
-    fallible("I#0", l, r, vec![Tree::from(c0)])
+    { probe("A#1", 1, 'R', pR1); probe("A#1", 2, 'R', pR2); fallible("A#1", l, r, vec![Tree::from(c0), Tree::from(c1)]) }
 }
 
 #[allow(clippy::too_many_arguments, clippy::needless_lifetimes, clippy::just_underscores_and_digits, clippy::extra_unused_type_parameters)]
 fn __action4<
 >(
     (_, l, _): (i64, i64, i64),
-    (_, c0, _): (i64, Tok, i64),
     (_, r, _): (i64, i64, i64),
-) -> Tree
+) -> Result<Tree,__lalrpop_util::ParseError<i64,Tok,u64>>
 {
-    node("I#1", l, r, vec![Tree::from(c0)])
+    fallible("B#0", l, r, vec![])
 }
 
 #[allow(clippy::too_many_arguments, clippy::needless_lifetimes, clippy::just_underscores_and_digits, clippy::extra_unused_type_parameters)]
@@ -1102,10 +576,11 @@ fn __action5<
 >(
     (_, l, _): (i64, i64, i64),
     (_, c0, _): (i64, Tok, i64),
+    (_, pR1, _): (i64, i64, i64),
     (_, r, _): (i64, i64, i64),
 ) -> Tree
 {
-    node("I#2", l, r, vec![Tree::from(c0)])
+    { probe("B#1", 1, 'R', pR1); node("B#1", l, r, vec![Tree::from(c0)]) }
 }
 
 #[allow(clippy::needless_lifetimes, clippy::clone_on_copy)]
@@ -1132,8 +607,31 @@ fn __action7<
     clippy::just_underscores_and_digits, clippy::clone_on_copy, clippy::unit_arg)]
 fn __action8<
 >(
+    __0: (i64, i64, i64),
+) -> Result<Tree,__lalrpop_util::ParseError<i64,Tok,u64>>
+{
+    let __start0 = __0.0.clone();
+    let __end0 = __0.0.clone();
+    let __temp0 = __action7(
+        &__start0,
+        &__end0,
+    );
+    let __temp0 = (__start0, __temp0, __end0);
+    __action2(
+        __temp0,
+        __0,
+    )
+}
+
+#[allow(clippy::too_many_arguments, clippy::needless_lifetimes,
+    clippy::just_underscores_and_digits, clippy::clone_on_copy, clippy::unit_arg)]
+fn __action9<
+>(
     __0: (i64, Tok, i64),
     __1: (i64, i64, i64),
+    __2: (i64, Tree, i64),
+    __3: (i64, i64, i64),
+    __4: (i64, i64, i64),
 ) -> Result<Tree,__lalrpop_util::ParseError<i64,Tok,u64>>
 {
     let __start0 = __0.0.clone();
@@ -1147,16 +645,18 @@ fn __action8<
         __temp0,
         __0,
         __1,
+        __2,
+        __3,
+        __4,
     )
 }
 
 #[allow(clippy::too_many_arguments, clippy::needless_lifetimes,
     clippy::just_underscores_and_digits, clippy::clone_on_copy, clippy::unit_arg)]
-fn __action9<
+fn __action10<
 >(
-    __0: (i64, Tok, i64),
-    __1: (i64, i64, i64),
-) -> Tree
+    __0: (i64, i64, i64),
+) -> Result<Tree,__lalrpop_util::ParseError<i64,Tok,u64>>
 {
     let __start0 = __0.0.clone();
     let __end0 = __0.0.clone();
@@ -1168,16 +668,16 @@ fn __action9<
     __action4(
         __temp0,
         __0,
-        __1,
     )
 }
 
 #[allow(clippy::too_many_arguments, clippy::needless_lifetimes,
     clippy::just_underscores_and_digits, clippy::clone_on_copy, clippy::unit_arg)]
-fn __action10<
+fn __action11<
 >(
     __0: (i64, Tok, i64),
     __1: (i64, i64, i64),
+    __2: (i64, i64, i64),
 ) -> Tree
 {
     let __start0 = __0.0.clone();
@@ -1191,32 +691,7 @@ fn __action10<
         __temp0,
         __0,
         __1,
-    )
-}
-
-#[allow(clippy::too_many_arguments, clippy::needless_lifetimes,
-    clippy::just_underscores_and_digits, clippy::clone_on_copy, clippy::unit_arg)]
-fn __action11<
->(
-    __0: (i64, Tree, i64),
-    __1: (i64, Tok, i64),
-    __2: (i64, Tree, i64),
-    __3: (i64, i64, i64),
-) -> Tree
-{
-    let __start0 = __0.0.clone();
-    let __end0 = __0.0.clone();
-    let __temp0 = __action7(
-        &__start0,
-        &__end0,
-    );
-    let __temp0 = (__start0, __temp0, __end0);
-    __action1(
-        __temp0,
-        __0,
-        __1,
         __2,
-        __3,
     )
 }
 
@@ -1225,28 +700,30 @@ fn __action11<
 fn __action12<
 >(
     __0: (i64, Tree, i64),
-    __1: (i64, Tok, i64),
-    __2: (i64, Tree, i64),
-    __3: (i64, Tok, i64),
-    __4: (i64, Tree, i64),
-    __5: (i64, i64, i64),
+    __1: (i64, Tree, i64),
+    __2: (i64, i64, i64),
 ) -> Tree
 {
     let __start0 = __0.0.clone();
     let __end0 = __0.0.clone();
+    let __start1 = __1.2.clone();
+    let __end1 = __2.0.clone();
     let __temp0 = __action7(
         &__start0,
         &__end0,
     );
     let __temp0 = (__start0, __temp0, __end0);
-    __action2(
+    let __temp1 = __action7(
+        &__start1,
+        &__end1,
+    );
+    let __temp1 = (__start1, __temp1, __end1);
+    __action1(
         __temp0,
         __0,
         __1,
+        __temp1,
         __2,
-        __3,
-        __4,
-        __5,
     )
 }
 
@@ -1254,18 +731,18 @@ fn __action12<
     clippy::just_underscores_and_digits, clippy::clone_on_copy, clippy::unit_arg)]
 fn __action13<
 >(
-    __0: (i64, Tok, i64),
+    __lookbehind: &i64,
+    __lookahead: &i64,
 ) -> Result<Tree,__lalrpop_util::ParseError<i64,Tok,u64>>
 {
-    let __start0 = __0.2.clone();
-    let __end0 = __0.2.clone();
+    let __start0 = __lookbehind.clone();
+    let __end0 = __lookahead.clone();
     let __temp0 = __action6(
         &__start0,
         &__end0,
     );
     let __temp0 = (__start0, __temp0, __end0);
     __action8(
-        __0,
         __temp0,
     )
 }
@@ -1275,18 +752,36 @@ fn __action13<
 fn __action14<
 >(
     __0: (i64, Tok, i64),
-) -> Tree
+    __1: (i64, Tree, i64),
+) -> Result<Tree,__lalrpop_util::ParseError<i64,Tok,u64>>
 {
     let __start0 = __0.2.clone();
-    let __end0 = __0.2.clone();
+    let __end0 = __1.0.clone();
+    let __start1 = __1.2.clone();
+    let __end1 = __1.2.clone();
+    let __start2 = __1.2.clone();
+    let __end2 = __1.2.clone();
     let __temp0 = __action6(
         &__start0,
         &__end0,
     );
     let __temp0 = (__start0, __temp0, __end0);
+    let __temp1 = __action6(
+        &__start1,
+        &__end1,
+    );
+    let __temp1 = (__start1, __temp1, __end1);
+    let __temp2 = __action6(
+        &__start2,
+        &__end2,
+    );
+    let __temp2 = (__start2, __temp2, __end2);
     __action9(
         __0,
         __temp0,
+        __1,
+        __temp1,
+        __temp2,
     )
 }
 
@@ -1294,18 +789,18 @@ fn __action14<
     clippy::just_underscores_and_digits, clippy::clone_on_copy, clippy::unit_arg)]
 fn __action15<
 >(
-    __0: (i64, Tok, i64),
-) -> Tree
+    __lookbehind: &i64,
+    __lookahead: &i64,
+) -> Result<Tree,__lalrpop_util::ParseError<i64,Tok,u64>>
 {
-    let __start0 = __0.2.clone();
-    let __end0 = __0.2.clone();
+    let __start0 = __lookbehind.clone();
+    let __end0 = __lookahead.clone();
     let __temp0 = __action6(
         &__start0,
         &__end0,
     );
     let __temp0 = (__start0, __temp0, __end0);
     __action10(
-        __0,
         __temp0,
     )
 }
@@ -1314,23 +809,27 @@ fn __action15<
     clippy::just_underscores_and_digits, clippy::clone_on_copy, clippy::unit_arg)]
 fn __action16<
 >(
-    __0: (i64, Tree, i64),
-    __1: (i64, Tok, i64),
-    __2: (i64, Tree, i64),
+    __0: (i64, Tok, i64),
 ) -> Tree
 {
-    let __start0 = __2.2.clone();
-    let __end0 = __2.2.clone();
+    let __start0 = __0.2.clone();
+    let __end0 = __0.2.clone();
+    let __start1 = __0.2.clone();
+    let __end1 = __0.2.clone();
     let __temp0 = __action6(
         &__start0,
         &__end0,
     );
     let __temp0 = (__start0, __temp0, __end0);
+    let __temp1 = __action6(
+        &__start1,
+        &__end1,
+    );
+    let __temp1 = (__start1, __temp1, __end1);
     __action11(
         __0,
-        __1,
-        __2,
         __temp0,
+        __temp1,
     )
 }
 
@@ -1339,14 +838,11 @@ fn __action16<
 fn __action17<
 >(
     __0: (i64, Tree, i64),
-    __1: (i64, Tok, i64),
-    __2: (i64, Tree, i64),
-    __3: (i64, Tok, i64),
-    __4: (i64, Tree, i64),
+    __1: (i64, Tree, i64),
 ) -> Tree
 {
-    let __start0 = __4.2.clone();
-    let __end0 = __4.2.clone();
+    let __start0 = __1.2.clone();
+    let __end0 = __1.2.clone();
     let __temp0 = __action6(
         &__start0,
         &__end0,
@@ -1355,550 +851,7 @@ fn __action17<
     __action12(
         __0,
         __1,
-        __2,
-        __3,
-        __4,
         __temp0,
-    )
-}
-
-#[allow(clippy::too_many_arguments, clippy::needless_lifetimes,
-    clippy::just_underscores_and_digits, clippy::clone_on_copy, clippy::unit_arg)]
-fn __action18<
->(
-    __0: (i64, Tok, i64),
-    __1: (i64, Tok, i64),
-    __2: (i64, Tok, i64),
-) -> Result<Tree,__lalrpop_util::ParseError<i64,Tok,u64>>
-{
-    let __start0 = __0.0.clone();
-    let __end0 = __0.2.clone();
-    let __start1 = __2.0.clone();
-    let __end1 = __2.2.clone();
-    let __temp0 = __action13(
-        __0,
-    )?;
-    let __temp0 = (__start0, __temp0, __end0);
-    let __temp1 = __action13(
-        __2,
-    )?;
-    let __temp1 = (__start1, __temp1, __end1);
-    Ok(__action16(
-        __temp0,
-        __1,
-        __temp1,
-    ))
-}
-
-#[allow(clippy::too_many_arguments, clippy::needless_lifetimes,
-    clippy::just_underscores_and_digits, clippy::clone_on_copy, clippy::unit_arg)]
-fn __action19<
->(
-    __0: (i64, Tok, i64),
-    __1: (i64, Tok, i64),
-    __2: (i64, Tok, i64),
-) -> Result<Tree,__lalrpop_util::ParseError<i64,Tok,u64>>
-{
-    let __start0 = __0.0.clone();
-    let __end0 = __0.2.clone();
-    let __start1 = __2.0.clone();
-    let __end1 = __2.2.clone();
-    let __temp0 = __action13(
-        __0,
-    )?;
-    let __temp0 = (__start0, __temp0, __end0);
-    let __temp1 = __action14(
-        __2,
-    );
-    let __temp1 = (__start1, __temp1, __end1);
-    Ok(__action16(
-        __temp0,
-        __1,
-        __temp1,
-    ))
-}
-
-#[allow(clippy::too_many_arguments, clippy::needless_lifetimes,
-    clippy::just_underscores_and_digits, clippy::clone_on_copy, clippy::unit_arg)]
-fn __action20<
->(
-    __0: (i64, Tok, i64),
-    __1: (i64, Tok, i64),
-    __2: (i64, Tok, i64),
-) -> Tree
-{
-    let __start0 = __0.0.clone();
-    let __end0 = __0.2.clone();
-    let __start1 = __2.0.clone();
-    let __end1 = __2.2.clone();
-    let __temp0 = __action13(
-        __0,
-    )?;
-    let __temp0 = (__start0, __temp0, __end0);
-    let __temp1 = __action15(
-        __2,
-    );
-    let __temp1 = (__start1, __temp1, __end1);
-    __action16(
-        __temp0,
-        __1,
-        __temp1,
-    )
-}
-
-#[allow(clippy::too_many_arguments, clippy::needless_lifetimes,
-    clippy::just_underscores_and_digits, clippy::clone_on_copy, clippy::unit_arg)]
-fn __action21<
->(
-    __0: (i64, Tok, i64),
-    __1: (i64, Tok, i64),
-    __2: (i64, Tok, i64),
-) -> Result<Tree,__lalrpop_util::ParseError<i64,Tok,u64>>
-{
-    let __start0 = __0.0.clone();
-    let __end0 = __0.2.clone();
-    let __start1 = __2.0.clone();
-    let __end1 = __2.2.clone();
-    let __temp0 = __action14(
-        __0,
-    );
-    let __temp0 = (__start0, __temp0, __end0);
-    let __temp1 = __action13(
-        __2,
-    )?;
-    let __temp1 = (__start1, __temp1, __end1);
-    Ok(__action16(
-        __temp0,
-        __1,
-        __temp1,
-    ))
-}
-
-#[allow(clippy::too_many_arguments, clippy::needless_lifetimes,
-    clippy::just_underscores_and_digits, clippy::clone_on_copy, clippy::unit_arg)]
-fn __action22<
->(
-    __0: (i64, Tok, i64),
-    __1: (i64, Tok, i64),
-    __2: (i64, Tok, i64),
-) -> Tree
-{
-    let __start0 = __0.0.clone();
-    let __end0 = __0.2.clone();
-    let __start1 = __2.0.clone();
-    let __end1 = __2.2.clone();
-    let __temp0 = __action14(
-        __0,
-    );
-    let __temp0 = (__start0, __temp0, __end0);
-    let __temp1 = __action14(
-        __2,
-    );
-    let __temp1 = (__start1, __temp1, __end1);
-    __action16(
-        __temp0,
-        __1,
-        __temp1,
-    )
-}
-
-#[allow(clippy::too_many_arguments, clippy::needless_lifetimes,
-    clippy::just_underscores_and_digits, clippy::clone_on_copy, clippy::unit_arg)]
-fn __action23<
->(
-    __0: (i64, Tok, i64),
-    __1: (i64, Tok, i64),
-    __2: (i64, Tok, i64),
-) -> Tree
-{
-    let __start0 = __0.0.clone();
-    let __end0 = __0.2.clone();
-    let __start1 = __2.0.clone();
-    let __end1 = __2.2.clone();
-    let __temp0 = __action14(
-        __0,
-    );
-    let __temp0 = (__start0, __temp0, __end0);
-    let __temp1 = __action15(
-        __2,
-    );
-    let __temp1 = (__start1, __temp1, __end1);
-    __action16(
-        __temp0,
-        __1,
-        __temp1,
-    )
-}
-
-#[allow(clippy::too_many_arguments, clippy::needless_lifetimes,
-    clippy::just_underscores_and_digits, clippy::clone_on_copy, clippy::unit_arg)]
-fn __action24<
->(
-    __0: (i64, Tok, i64),
-    __1: (i64, Tok, i64),
-    __2: (i64, Tok, i64),
-) -> Result<Tree,__lalrpop_util::ParseError<i64,Tok,u64>>
-{
-    let __start0 = __0.0.clone();
-    let __end0 = __0.2.clone();
-    let __start1 = __2.0.clone();
-    let __end1 = __2.2.clone();
-    let __temp0 = __action15(
-        __0,
-    );
-    let __temp0 = (__start0, __temp0, __end0);
-    let __temp1 = __action13(
-        __2,
-    )?;
-    let __temp1 = (__start1, __temp1, __end1);
-    Ok(__action16(
-        __temp0,
-        __1,
-        __temp1,
-    ))
-}
-
-#[allow(clippy::too_many_arguments, clippy::needless_lifetimes,
-    clippy::just_underscores_and_digits, clippy::clone_on_copy, clippy::unit_arg)]
-fn __action25<
->(
-    __0: (i64, Tok, i64),
-    __1: (i64, Tok, i64),
-    __2: (i64, Tok, i64),
-) -> Tree
-{
-    let __start0 = __0.0.clone();
-    let __end0 = __0.2.clone();
-    let __start1 = __2.0.clone();
-    let __end1 = __2.2.clone();
-    let __temp0 = __action15(
-        __0,
-    );
-    let __temp0 = (__start0, __temp0, __end0);
-    let __temp1 = __action14(
-        __2,
-    );
-    let __temp1 = (__start1, __temp1, __end1);
-    __action16(
-        __temp0,
-        __1,
-        __temp1,
-    )
-}
-
-#[allow(clippy::too_many_arguments, clippy::needless_lifetimes,
-    clippy::just_underscores_and_digits, clippy::clone_on_copy, clippy::unit_arg)]
-fn __action26<
->(
-    __0: (i64, Tok, i64),
-    __1: (i64, Tok, i64),
-    __2: (i64, Tok, i64),
-) -> Tree
-{
-    let __start0 = __0.0.clone();
-    let __end0 = __0.2.clone();
-    let __start1 = __2.0.clone();
-    let __end1 = __2.2.clone();
-    let __temp0 = __action15(
-        __0,
-    );
-    let __temp0 = (__start0, __temp0, __end0);
-    let __temp1 = __action15(
-        __2,
-    );
-    let __temp1 = (__start1, __temp1, __end1);
-    __action16(
-        __temp0,
-        __1,
-        __temp1,
-    )
-}
-
-#[allow(clippy::too_many_arguments, clippy::needless_lifetimes,
-    clippy::just_underscores_and_digits, clippy::clone_on_copy, clippy::unit_arg)]
-fn __action27<
->(
-    __0: (i64, Tree, i64),
-    __1: (i64, Tok, i64),
-    __2: (i64, Tok, i64),
-    __3: (i64, Tok, i64),
-    __4: (i64, Tok, i64),
-) -> Result<Tree,__lalrpop_util::ParseError<i64,Tok,u64>>
-{
-    let __start0 = __2.0.clone();
-    let __end0 = __2.2.clone();
-    let __start1 = __4.0.clone();
-    let __end1 = __4.2.clone();
-    let __temp0 = __action13(
-        __2,
-    )?;
-    let __temp0 = (__start0, __temp0, __end0);
-    let __temp1 = __action13(
-        __4,
-    )?;
-    let __temp1 = (__start1, __temp1, __end1);
-    Ok(__action17(
-        __0,
-        __1,
-        __temp0,
-        __3,
-        __temp1,
-    ))
-}
-
-#[allow(clippy::too_many_arguments, clippy::needless_lifetimes,
-    clippy::just_underscores_and_digits, clippy::clone_on_copy, clippy::unit_arg)]
-fn __action28<
->(
-    __0: (i64, Tree, i64),
-    __1: (i64, Tok, i64),
-    __2: (i64, Tok, i64),
-    __3: (i64, Tok, i64),
-    __4: (i64, Tok, i64),
-) -> Result<Tree,__lalrpop_util::ParseError<i64,Tok,u64>>
-{
-    let __start0 = __2.0.clone();
-    let __end0 = __2.2.clone();
-    let __start1 = __4.0.clone();
-    let __end1 = __4.2.clone();
-    let __temp0 = __action13(
-        __2,
-    )?;
-    let __temp0 = (__start0, __temp0, __end0);
-    let __temp1 = __action14(
-        __4,
-    );
-    let __temp1 = (__start1, __temp1, __end1);
-    Ok(__action17(
-        __0,
-        __1,
-        __temp0,
-        __3,
-        __temp1,
-    ))
-}
-
-#[allow(clippy::too_many_arguments, clippy::needless_lifetimes,
-    clippy::just_underscores_and_digits, clippy::clone_on_copy, clippy::unit_arg)]
-fn __action29<
->(
-    __0: (i64, Tree, i64),
-    __1: (i64, Tok, i64),
-    __2: (i64, Tok, i64),
-    __3: (i64, Tok, i64),
-    __4: (i64, Tok, i64),
-) -> Tree
-{
-    let __start0 = __2.0.clone();
-    let __end0 = __2.2.clone();
-    let __start1 = __4.0.clone();
-    let __end1 = __4.2.clone();
-    let __temp0 = __action13(
-        __2,
-    )?;
-    let __temp0 = (__start0, __temp0, __end0);
-    let __temp1 = __action15(
-        __4,
-    );
-    let __temp1 = (__start1, __temp1, __end1);
-    __action17(
-        __0,
-        __1,
-        __temp0,
-        __3,
-        __temp1,
-    )
-}
-
-#[allow(clippy::too_many_arguments, clippy::needless_lifetimes,
-    clippy::just_underscores_and_digits, clippy::clone_on_copy, clippy::unit_arg)]
-fn __action30<
->(
-    __0: (i64, Tree, i64),
-    __1: (i64, Tok, i64),
-    __2: (i64, Tok, i64),
-    __3: (i64, Tok, i64),
-    __4: (i64, Tok, i64),
-) -> Result<Tree,__lalrpop_util::ParseError<i64,Tok,u64>>
-{
-    let __start0 = __2.0.clone();
-    let __end0 = __2.2.clone();
-    let __start1 = __4.0.clone();
-    let __end1 = __4.2.clone();
-    let __temp0 = __action14(
-        __2,
-    );
-    let __temp0 = (__start0, __temp0, __end0);
-    let __temp1 = __action13(
-        __4,
-    )?;
-    let __temp1 = (__start1, __temp1, __end1);
-    Ok(__action17(
-        __0,
-        __1,
-        __temp0,
-        __3,
-        __temp1,
-    ))
-}
-
-#[allow(clippy::too_many_arguments, clippy::needless_lifetimes,
-    clippy::just_underscores_and_digits, clippy::clone_on_copy, clippy::unit_arg)]
-fn __action31<
->(
-    __0: (i64, Tree, i64),
-    __1: (i64, Tok, i64),
-    __2: (i64, Tok, i64),
-    __3: (i64, Tok, i64),
-    __4: (i64, Tok, i64),
-) -> Tree
-{
-    let __start0 = __2.0.clone();
-    let __end0 = __2.2.clone();
-    let __start1 = __4.0.clone();
-    let __end1 = __4.2.clone();
-    let __temp0 = __action14(
-        __2,
-    );
-    let __temp0 = (__start0, __temp0, __end0);
-    let __temp1 = __action14(
-        __4,
-    );
-    let __temp1 = (__start1, __temp1, __end1);
-    __action17(
-        __0,
-        __1,
-        __temp0,
-        __3,
-        __temp1,
-    )
-}
-
-#[allow(clippy::too_many_arguments, clippy::needless_lifetimes,
-    clippy::just_underscores_and_digits, clippy::clone_on_copy, clippy::unit_arg)]
-fn __action32<
->(
-    __0: (i64, Tree, i64),
-    __1: (i64, Tok, i64),
-    __2: (i64, Tok, i64),
-    __3: (i64, Tok, i64),
-    __4: (i64, Tok, i64),
-) -> Tree
-{
-    let __start0 = __2.0.clone();
-    let __end0 = __2.2.clone();
-    let __start1 = __4.0.clone();
-    let __end1 = __4.2.clone();
-    let __temp0 = __action14(
-        __2,
-    );
-    let __temp0 = (__start0, __temp0, __end0);
-    let __temp1 = __action15(
-        __4,
-    );
-    let __temp1 = (__start1, __temp1, __end1);
-    __action17(
-        __0,
-        __1,
-        __temp0,
-        __3,
-        __temp1,
-    )
-}
-
-#[allow(clippy::too_many_arguments, clippy::needless_lifetimes,
-    clippy::just_underscores_and_digits, clippy::clone_on_copy, clippy::unit_arg)]
-fn __action33<
->(
-    __0: (i64, Tree, i64),
-    __1: (i64, Tok, i64),
-    __2: (i64, Tok, i64),
-    __3: (i64, Tok, i64),
-    __4: (i64, Tok, i64),
-) -> Result<Tree,__lalrpop_util::ParseError<i64,Tok,u64>>
-{
-    let __start0 = __2.0.clone();
-    let __end0 = __2.2.clone();
-    let __start1 = __4.0.clone();
-    let __end1 = __4.2.clone();
-    let __temp0 = __action15(
-        __2,
-    );
-    let __temp0 = (__start0, __temp0, __end0);
-    let __temp1 = __action13(
-        __4,
-    )?;
-    let __temp1 = (__start1, __temp1, __end1);
-    Ok(__action17(
-        __0,
-        __1,
-        __temp0,
-        __3,
-        __temp1,
-    ))
-}
-
-#[allow(clippy::too_many_arguments, clippy::needless_lifetimes,
-    clippy::just_underscores_and_digits, clippy::clone_on_copy, clippy::unit_arg)]
-fn __action34<
->(
-    __0: (i64, Tree, i64),
-    __1: (i64, Tok, i64),
-    __2: (i64, Tok, i64),
-    __3: (i64, Tok, i64),
-    __4: (i64, Tok, i64),
-) -> Tree
-{
-    let __start0 = __2.0.clone();
-    let __end0 = __2.2.clone();
-    let __start1 = __4.0.clone();
-    let __end1 = __4.2.clone();
-    let __temp0 = __action15(
-        __2,
-    );
-    let __temp0 = (__start0, __temp0, __end0);
-    let __temp1 = __action14(
-        __4,
-    );
-    let __temp1 = (__start1, __temp1, __end1);
-    __action17(
-        __0,
-        __1,
-        __temp0,
-        __3,
-        __temp1,
-    )
-}
-
-#[allow(clippy::too_many_arguments, clippy::needless_lifetimes,
-    clippy::just_underscores_and_digits, clippy::clone_on_copy, clippy::unit_arg)]
-fn __action35<
->(
-    __0: (i64, Tree, i64),
-    __1: (i64, Tok, i64),
-    __2: (i64, Tok, i64),
-    __3: (i64, Tok, i64),
-    __4: (i64, Tok, i64),
-) -> Tree
-{
-    let __start0 = __2.0.clone();
-    let __end0 = __2.2.clone();
-    let __start1 = __4.0.clone();
-    let __end1 = __4.2.clone();
-    let __temp0 = __action15(
-        __2,
-    );
-    let __temp0 = (__start0, __temp0, __end0);
-    let __temp1 = __action15(
-        __4,
-    );
-    let __temp1 = (__start1, __temp1, __end1);
-    __action17(
-        __0,
-        __1,
-        __temp0,
-        __3,
-        __temp1,
     )
 }
 
